@@ -307,7 +307,13 @@ func translateTarget(t Target) (string, error) {
 			sb.WriteString("(* go2coq: FAILED block " + b.Name + ": function not found *)\n\n")
 			continue
 		}
-		def, err := tr.absBlock(b, fd)
+		var def string
+		var err error
+		if b.Cond {
+			def, err = tr.absCond(b, fd)
+		} else {
+			def, err = tr.absBlock(b, fd)
+		}
 		tr.report(b.Name, fd, err)
 		if err != nil {
 			sb.WriteString("(* go2coq: FAILED block " + b.Name + ": " + cm(err.Error()) + " *)\n\n")
@@ -1022,6 +1028,16 @@ func (tr *translator) call(e *ast.CallExpr) string {
 				return "(bits_Len64 " + tr.expr(e.Args[0]) + ")"
 			case "math.Float32bits", "math.Float64bits", "math.Float32frombits", "math.Float64frombits":
 				return tr.expr(e.Args[0])
+			case "math.IsNaN", "math.IsInf":
+				// abs mode only (the primitives f64_isnan / f64_isinf on IEEE bit patterns come with the module prelude absFloatPrelude)
+				if tr.abs != nil {
+					if w, isf := isFloat(tr.typeOf(e.Args[0])); isf && w == 64 {
+						if full == "math.IsNaN" {
+							return "(f64_isnan " + tr.expr(e.Args[0]) + ")"
+						}
+						return "(f64_isinf " + tr.expr(e.Args[0]) + " " + tr.expr(e.Args[1]) + ")"
+					}
+				}
 			case modPath + "/meta.NewError", "errors.New", "fmt.Errorf":
 				return "Err_NewError"
 			case "unicode/utf8.ValidString":
